@@ -114,7 +114,7 @@ prop(
 )
 prop(
     id="C03", module="Properties.C03", vfile="Properties/C03.v", level="proof", subcmd="c03",
-    theorems=["C03_close_persists_all"],
+    theorems=["C03_close_persists_all", "CrashHalf.C03_synced_records_survive_crash", "CrashHalf.C03_synced_records_survive_power_loss"],
     counts={"quick": 1200, "thorough": 40000, "search": 8000},
     rule=HIST_RULE + "; C03 histories end with a drop + reopen and contain 2-4 further drops at random pipeline states",
     assumptions=["crash half of C03 (synced records survive a crash) is decided by the C02/C12 checks",
@@ -220,7 +220,7 @@ MT_RULE = ("multitree histories: column 0 multitree (plain / counted / append-on
            "after a reopen the entry count of the multitree column is taken. Non-trivial: the history shares nodes between trees or dereferences a tree while its lock is held")
 prop(
     id="C10", module="Properties.C10", vfile="Properties/C10.v", level="proof", subcmd="c10",
-    theorems=["C10_node_pack_roundtrip", "C10_unrepresentable_rejected"],
+    theorems=["C10_node_pack_roundtrip", "C10_unrepresentable_rejected", "C10_insert_reads_back_after_commit", "C10_insert_reads_back_after_processing", "C10_shared_node_survives_dereference", "C10_unshared_leaf_is_reclaimed"],
     counts={"quick": 1600, "thorough": 60000, "search": 6400},
     rule=MT_RULE,
     assumptions=["node identities are abstract in the model (the code's addresses): observations are compared after canonical renumbering, existing children are named by paths",
@@ -240,7 +240,7 @@ prop(
 prop(
     id="C04", module="Properties.C04", vfile="Properties/C04.v", level="proof", subcmd="c04",
     subcmds=[("c04", {"quick": 1600, "thorough": 60000, "search": 8000}), ("c04t", {"quick": 480, "thorough": 20000, "search": 2400})],
-    theorems=["C04_tree_iteration_is_spec", "C04_step_is_spec", "C04_checker_sound_order", "C04_checker_sound_depth"],
+    theorems=["C04_tree_iteration_is_spec", "C04_step_is_spec", "C04_checker_sound_order", "C04_checker_sound_depth", "C04_merged_step_is_next", "C04_merged_iteration_is_spec", "C04_prescription_is_unambiguous"],
     counts={"quick": 1600, "thorough": 60000, "search": 8000},
     rule="(c04) histories on a btree column (plus an optional second column): 5-14 keys incl. the empty key, keys of 254/255/256 bytes (length-encoding boundary) "
          "and keys extending other keys; 15-60 steps of {commit of 1-6 sets/removals, process, flush, enact, clean, reopen + new iterator, seek, seek_to_first, "
@@ -292,7 +292,7 @@ prop(
 prop(
     id="C13", module="Properties.C13", vfile="Properties/C13.v", level="proof", subcmd="c13",
     theorems=["C13_replay_applies_only_valid_consecutive", "C13_accepted_record_is_complete_and_checksummed", "C13_nothing_after_invalid",
-              "C13_scanner_total", "C13_surviving_prefix_gives_prefix_state", "C13_older_prefix_over_newer_tables_refuted"],
+              "C13_scanner_total", "C13_surviving_prefix_gives_prefix_state", "C13_older_prefix_over_newer_tables_refuted", "C13_complete_record_is_accepted", "C13_torn_record_never_applied", "C13_cut_inside_checksum_is_end_of_file"],
     counts={"quick": 160, "thorough": 6000, "search": 640},
     rule=CRASH_RULE + "; C13 images are taken at record boundaries and then damaged by one of: truncation at a random offset, one flipped bit, 2-16 bytes of garbage, "
          "garbage appended, file deleted, file duplicated under a later name, size field 0x7fff planted, file cut below the header length, stray junk file; "
@@ -326,7 +326,7 @@ prop(
 
 prop(
     id="C14", module="Properties.C14", vfile="Properties/C14.v", level="proof", subcmd="c14",
-    theorems=["C14_accepted_table_is_partitioned", "C14_no_slot_twice", "C14_no_slot_leaked"],
+    theorems=["C14_accepted_table_is_partitioned", "C14_no_slot_twice", "C14_no_slot_leaked", "C14_checked_table_satisfies_invariant", "C14_alloc_pops_free_list", "C14_alloc_extends_only_when_list_empty", "C14_free_pushes_on_free_list"],
     counts={"quick": 640, "thorough": 40000, "search": 3200},
     rule="histories from six generators in turn (mixed hash/btree columns; counted columns; index growth with 66-90 keys sharing an index page; btree columns grown to 40-130 keys and thinned out; "
          "histories with drops at random pipeline states; value-size classes incl. multi-part chains), every third one interrupted at a random step by a process crash (directory copied while "
@@ -371,7 +371,7 @@ prop(
 
 prop(
     id="C15", module="Properties.C15", vfile="Properties/C15.v", level="proof", subcmd="c15",
-    theorems=["C15_never_blocked_with_work", "C15_progress", "C15_shutdown_terminates"],
+    theorems=["C15_never_blocked_with_work", "C15_progress", "C15_shutdown_terminates", "BP.C15_backpressure_wait_is_signalled", "BP.C15_signalled_wait_returns", "BP.C15_backpressure_deadlock_without_signal_refuted"],
     counts={"quick": 96, "thorough": 10000, "search": 800},
     rule="runs with the four background workers and no stepping from outside: 1-3 client threads commit 20-160 transactions of 0-9 keys with value lengths from 16 bytes to 3 MB (in a sixth of the runs one "
          "transaction of about 18 MB, above the 16 MiB queue limit), pauses of 0-2 ms after a third of the commits, always_flush on in a third of the runs; in half of the runs the clients run in a child process which, once they are done, makes no "
